@@ -475,6 +475,24 @@ def build():
     ])
     u.text(HIST)
     u.witnesses = ["witness_hist_inv_reachable"]
+    u.label_props = {
+        # the free list is exactly the set of inactive slots (C13); a lost slot also breaks the
+        # serde round trip (C06: "missing entity index"); a duplicate / active entry makes
+        # allocate overwrite a live entity (C02, C01)
+        "wf.free_complete": ["C13", "C06"],
+        "wf.free_inactive": ["C13", "C02", "C01"],
+        "wf.free_distinct": ["C13", "C02", "C01"],
+        "wf.free_in_bounds": ["C13", "C05"],
+        "reuse.free_is_suffix": ["C13", "C06"],
+        "frame": ["C01", "C02", "C13"],
+        "hist": ["C02"],
+        "C01.view": ["C01", "C02", "C13"],
+        "C01.batch": ["C01"],
+        "C02": ["C02", "C01"],
+        "C13.free_fifo": [], "C13.free_untouched_when_empty": [], "C13.free_appended": [],
+        "C13.free_consumed_exactly": ["C13", "C06"],
+        "pre": [],
+    }
     return u
 
 
